@@ -12,6 +12,16 @@ def norm (k : Nat) (l : List Int) : List Int := l.map (norm1 k)
 /-- coefficient i, zero beyond the dimension -/
 def coeff (l : List Int) (i : Nat) : Int := l.getD i 0
 
+/-- the position a Python index i denotes in a sequence of length n (for −n ≤ i < n): negative indices count from the end -/
+def pos (n : Nat) (i : Int) : Nat := if i < 0 then (i + n).toNat else i.toNat
+
+/-- the stop bound of a forward slice on a Poly: an explicit stop beyond the (clipped) end is honoured, the coefficients
+    read there are the missing ones, i.e. zero -/
+def sliceStop (stop : Option Int) (clipped : Int) : Int :=
+  match stop with
+  | some x => max x clipped
+  | none => clipped
+
 /-- a vector forced to dimension d > 0 (truncate / pad with zeros); d = 0: unchanged -/
 def fit (d : Nat) (l : List Int) : List Int := if d = 0 then l else (List.range d).map (coeff l)
 
